@@ -34,7 +34,7 @@ P = {
         "month/year steps on date-times in a zone's wall clock (dadd --from-zone Z --zone Z, stdin and argument).",
    note=SAN + "lazy-ultimo semantics (steps of ONE invocation compose) as pinned by the suite. " + TB, ref="3 C04"),
  "C05": dict(cat="exploration", tech="inverse-function monitor: real ddiff output fed back through the real add code (driver + dadd tool)",
-   text="For all ordered pairs of clustered instants and 16 unit sets: sign = order, ddiff(B,A) = -ddiff(A,B), and the "
+   text="For all ordered pairs of clustered instants and 23 unit-set/carrier combinations (ymd, ywd, ymcw, yd, epoch): sign = order, ddiff(B,A) = -ddiff(A,B), and the "
         "printed components added to the earlier value by the real library land on the later one. The oracle only supplies "
         "ordering/equality.",
    note=SAN + "earlier day-of-month <= 28 for %Y/%m formats as the statement says. " + TB, ref="3 C05"),
